@@ -180,10 +180,33 @@ class LayoutGen:
         size_attrs = self.size_attrs(shape, w, h)
         if form == "abs":
             x, y = self.g(), self.g()
-            if shape in ("circle", "ellipse") and r.random() < 0.5:
+            k = r.random()
+            if shape in ("circle", "ellipse") and k < 0.35:
                 attrs.append(("cxy", "%s %s" % (fmt(x + w / 2), fmt(y + h / 2))))
-            else:
+            elif shape in ("circle", "ellipse") and k < 0.5:
+                attrs += [("cx", fmt(x + w / 2)), ("cy", fmt(y + h / 2))]
+                feats.add("abs.per-axis")
+            elif k < 0.75:
                 attrs.append(("xy", "%s %s" % (fmt(x), fmt(y))))
+            else:
+                attrs += [("x", fmt(x)), ("y", fmt(y))]
+                feats.add("abs.per-axis")
+            if r.random() < 0.25:
+                # a shift consumed when the element is resolved: dxy, or individual dx / dy
+                dx, dy = self.g(-8, 8), self.g(-8, 8)
+                kk = r.random()
+                if kk < 0.4:
+                    attrs.append(("dxy", "%s %s" % (fmt(dx), fmt(dy))))
+                elif kk < 0.7:
+                    attrs += [("dx", fmt(dx)), ("dy", fmt(dy))]
+                elif kk < 0.85:
+                    attrs.append(("dx", fmt(dx)))
+                    dy = F(0)
+                else:
+                    attrs.append(("dy", fmt(dy)))
+                    dx = F(0)
+                x, y = x + dx, y + dy
+                feats.add("abs.delta")
             box = Box(x, y, x + w, y + h)
         elif form == "dir":
             rt, re_ = self.pick_ref()
